@@ -8,7 +8,7 @@ import traceback
 from .frontend import AnalysisBroken, VERIF
 from .core import Model, Ctx
 
-EVID = os.path.join(VERIF, 'evidence')
+EVID = os.environ.get('CATSA_EVID') or os.path.join(VERIF, 'evidence')
 
 
 def registry():
@@ -123,7 +123,7 @@ def run_property(pid, tier, seed):
         'wall_s': wall,
         'violations': len(unlisted),
     }
-    ev['coverage'].update(jsonable(ctx.extra))
+    ev['coverage'].update(jsonable({k: v for k, v in ctx.extra.items() if not k.startswith('_')}))
     if ctx.model.cmd is not None:
         ev['coverage']['states'] = len(ctx.model.cmd.store) + len(ctx.model.evt.store)
         ev['coverage']['transitions'] = len(ctx.model.cmd.transitions) + len(ctx.model.evt.transitions)
